@@ -117,8 +117,21 @@ class Prop(PropBase):
                 td = DM.time_delay(f, r)
                 sd = DM.sample_delay(f, r, rate)
                 td2 = DM.time_delay(r, f)
+                # "for all frequencies": arrays on either side (either one the larger), broadcast against each other
+                arr_bad = []
+                band = np.array([1.0, 1.25, 1.5]) * f
+                want = [float(DM.time_delay(b, r).to_value(u.s)) for b in band]
+                for lab, got, exp in (
+                        ("time_delay(array, scalar)", DM.time_delay(band, r), np.array(want)),
+                        ("time_delay(scalar, array)", DM.time_delay(r, band), -np.array(want)),
+                        ("time_delay(array, column)", DM.time_delay(band, band[:, None]),
+                         np.array([[float(DM.time_delay(b, c).to_value(u.s)) for b in band] for c in band])),
+                        ("sample_delay(scalar, array)", DM.sample_delay(r, band, rate) / float((1 * rate).to_value(u.Hz)), -np.array(want))):
+                    g_ = np.asarray(got.to_value(u.s) if hasattr(got, "unit") and got.unit.is_equivalent(u.s) else got, dtype=float)
+                    if g_.shape != exp.shape or not np.allclose(g_, exp, rtol=1e-9, atol=1e-300):
+                        arr_bad.append(lab)
                 return {"td": X.rat(X.q_value(td, u.s)), "sd": X.rat(X.frac(float(sd))), "unit": str(td.unit),
-                        "td_rev": X.rat(X.q_value(td2, u.s))}
+                        "td_rev": X.rat(X.q_value(td2, u.s)), "arr_bad": arr_bad}
             except Exception as e:
                 return {"err": err_name(e)}
         z = self._signal(case)
@@ -235,6 +248,8 @@ class Prop(PropBase):
                 return f"sample_delay = {float(F(code['sd']))}, law gives {float(exact * rate)}"
             if not X.close(F(code["td_rev"]), -exact, atol=tol):
                 return "time_delay not antisymmetric"
+            if code.get("arr_bad"):
+                return "array arguments: " + ", ".join(code["arr_bad"]) + " differ from the element-wise law"
             return None
         # (argument checks that the property does not state are observed in `rejects` for the evidence, not judged)
         if "err" in code:
